@@ -1,5 +1,6 @@
 mod drive;
 mod exprcase;
+mod lexcase;
 mod render;
 mod session;
 mod val;
@@ -18,6 +19,8 @@ fn replay(args: &[String]) -> i32 {
     let mut fails: Vec<Value> = vec![];
     let mut samples: Vec<Value> = vec![];
     let mut kinds = std::collections::BTreeMap::<String, usize>::new();
+    let mut diverged = 0usize;
+    let mut divs: Vec<Value> = vec![];
     for line in std::io::BufReader::new(file).lines() {
         let line = line.expect("read");
         if line.trim().is_empty() {
@@ -33,6 +36,32 @@ fn replay(args: &[String]) -> i32 {
         total += 1;
         let kind = case["R"].as_str().unwrap_or("?").to_string();
         *kinds.entry(kind.clone()).or_insert(0) += 1;
+        if kind == "lex" {
+            match lexcase::run(&case) {
+                (lexcase::Outcome::Ok, detail) => {
+                    ok += 1;
+                    if detail["parses"].as_bool().unwrap_or(false) {
+                        nontrivial += 1;
+                    }
+                    if samples.len() < 5 && total % 9973 == 1 {
+                        samples.push(json!({"case": {"x": case["x"]}, "observed": detail}));
+                    }
+                }
+                (lexcase::Outcome::Diverge(msg), detail) => {
+                    ok += 1;
+                    diverged += 1;
+                    if divs.len() < 40 {
+                        divs.push(json!({"why": msg, "observed": detail, "mtext": case["mtext"], "mtoks": case["mtoks"]}));
+                    }
+                }
+                (lexcase::Outcome::Fail(msg), detail) => {
+                    if fails.len() < 2000 {
+                        fails.push(json!({"case": case, "why": msg, "observed": detail}));
+                    }
+                }
+            }
+            continue;
+        }
         let (outcome, detail) = match kind.as_str() {
             "expr" => exprcase::run(&case),
             _ => {
@@ -59,7 +88,7 @@ fn replay(args: &[String]) -> i32 {
         }
     }
     let res = json!({"total": total, "ok": ok, "skipped": skipped, "failed": total - ok - skipped, "nontrivial": nontrivial,
-        "kinds": kinds, "fails": fails, "samples": samples});
+        "kinds": kinds, "fails": fails, "samples": samples, "diverged": diverged, "divergences": divs});
     let mut f = std::fs::File::create(&args[1]).expect("result file");
     f.write_all(serde_json::to_string(&res).unwrap().as_bytes()).unwrap();
     0
@@ -122,6 +151,17 @@ fn main() {
         Some("replay") => replay(&args[2..]),
         Some("drive") => drive_cmd(&args[2..]),
         Some("debug") => debug_cmd(&args[2..]),
+        Some("render") => {
+            // print the source text of every command of every session in a file
+            let file = std::fs::File::open(&args[2]).expect("sessions file");
+            for line in std::io::BufReader::new(file).lines() {
+                let case: Value = serde_json::from_str(&line.unwrap()).expect("json");
+                for c in case["cmds"].as_array().unwrap_or(&vec![]) {
+                    println!("{}", render::command_text(c));
+                }
+            }
+            0
+        }
         _ => {
             eprintln!("usage: bvh replay <cases.ndjson> <result.json>");
             2
